@@ -19,32 +19,59 @@
 (***************************************************************************)
 EXTENDS Integers, Sequences, FiniteSets, TLC
 
-CONSTANTS MaxCmds,      \* commands read after the handshake before end of input
-          MaxMoves,     \* root move counts explored: 0..MaxMoves
-          MaxSlice,     \* time slices explored: 0..MaxSlice ticks
-          MaxSends,     \* improvements a search may report
-          BugNoAnswerWhenNoMoves,   \* C08: go in a terminal position is handed to the search thread
-          BugEofSpins,              \* C17: end of input is read as an endless stream of empty lines
-          BugSharedChannel,         \* C03: one channel for the whole session (leftovers reach the next go)
-          BugFallbackBeforeLoop,    \* C08: the fallback send happens only before the first root move
-          BugStaleGameOver          \* C08: the terminal test uses a flag computed at `position` time
+\* (the @type comments are Apalache annotations; TLC and SANY ignore them)
+CONSTANTS
+  \* @type: Int;
+  MaxCmds,      \* commands read after the handshake before end of input
+  \* @type: Int;
+  MaxMoves,     \* root move counts explored: 0..MaxMoves
+  \* @type: Int;
+  MaxSlice,     \* time slices explored: 0..MaxSlice ticks
+  \* @type: Int;
+  MaxSends,     \* improvements a search may report
+  \* @type: Bool;
+  BugNoAnswerWhenNoMoves,   \* C08: go in a terminal position is handed to the search thread
+  \* @type: Bool;
+  BugEofSpins,              \* C17: end of input is read as an endless stream of empty lines
+  \* @type: Bool;
+  BugSharedChannel,         \* C03: one channel for the whole session (leftovers reach the next go)
+  \* @type: Bool;
+  BugFallbackBeforeLoop,    \* C08: the fallback send happens only before the first root move
+  \* @type: Bool;
+  BugStaleGameOver          \* C08: the terminal test uses a flag computed at `position` time
 
 VARIABLES
+  \* @type: Int;
   nread,      \* commands consumed so far
+  \* @type: Str;
   io,         \* "read" | "poll" | "dead"
+  \* @type: {id: Int, n: Int};
   board,      \* [id, n]: the engine's current position
+  \* @type: Seq(Int);
   table,      \* repetition record: sequence of position ids since the last position command
+  \* @type: Bool;
   flagOver,   \* (only used by BugStaleGameOver) game-over flag
+  \* @type: Int;
   left,       \* ticks until the deadline of the go being served
+  \* @type: Seq({pos: Int, mv: Int});
   chan,       \* channel search thread -> I/O thread: sequence of [pos, mv]
+  \* @type: {pos: Int, mv: Int};
   best,       \* last board received in the polling loop (NoBest = none)
+  \* @type: Str;
   srch,       \* "none" | "run" | "done": the search thread of the current go
+  \* @type: {id: Int, n: Int};
   root,       \* the position the running search thread was given
+  \* @type: Int;
   sent,       \* boards sent by the current search thread
+  \* @type: Bool;
   started,    \* has the search thread begun its first root move
+  \* @type: Str;
   pending,    \* "none" | "go" | "isready": a request not yet answered
+  \* @type: Seq({t: Str, a: Int, b: Int});
   out,        \* history: lines printed
+  \* @type: Int;
   nextId,     \* fresh position ids
+  \* @type: Int;
   ngo         \* go commands accepted so far
 vars == <<nread, io, board, table, flagOver, left, chan, best, srch, root, sent, started, pending, out, nextId, ngo>>
 
